@@ -7,7 +7,7 @@ E1_ASSUMPTIONS = [
     "interleavings are sequentially consistent; synchronisation is judged by vector clocks computed from the memory orderings in the source (C11 release/acquire rules)",
     "assumption SPIN: a thread that repeats a read-only cycle with unchanged values keeps doing so until one of the values changes (HANG verdicts are double-checked by running the blocked threads further)",
     "atomics that bypass the hook (coverage.uninstrumented_atomics) are invisible to the scheduler",
-    "compare_exchange_weak is modelled as strong; state keys are 128-bit hashes of exact states",
+    "compare_exchange_weak: the first would-succeed attempt of each thread at each location fails spuriously, later attempts behave like the strong form (one fixed environment choice, not all failure patterns; the pinned crate uses no CAS); state keys are 128-bit hashes of exact states",
 ]
 
 def e1_diff_part(prop, tier, seed):
